@@ -613,6 +613,12 @@ def run(rep: C.Report) -> None:
     namespace_index(rep)
     depth_guard(rep)
     loop_check_order(rep)
+    try:
+        from props.C16 import stack_balance
+
+        stack_balance(rep, "Ob7 (shared with C16) no path leaves the expansion path deeper or shallower - an underflow makes a later pop raise: ")
+    except Exception as e:  # noqa: BLE001
+        rep.extra["balance_error"] = f"{type(e).__name__}: {e}"
     xh.check_harness(
         rep,
         HL,
